@@ -145,6 +145,10 @@ class NF:
     def _index(self, xs, i):
         if xs[0] == "map":
             return subst(xs[1], IT, self._index(xs[2], i))
+        # xs[a:][i] == xs[a+i]  for i >= 0
+        if xs[0] == "slice" and xs[3] == NONE and is_const(xs[2]) and is_const(i) and isinstance(i[1], int) and i[1] >= 0 \
+                and isinstance(xs[2][1], int) and xs[2][1] >= 0:
+            return self._index(xs[1], const(xs[2][1] + i[1]))
         if xs[0] == "list" and is_const(i) and isinstance(i[1], int) and -len(xs) + 1 <= i[1] < len(xs) - 1:
             return xs[1 + i[1]] if i[1] >= 0 else xs[len(xs) + i[1]]
         return ("index", xs, i)
@@ -156,6 +160,10 @@ class NF:
             return self._map(xs[1], self._slice(xs[2], lo, hi, step))
         if lo in (NONE, const(0)) and hi == NONE:
             return xs
+        # xs[a:][b:] == xs[a+b:]
+        if xs[0] == "slice" and xs[3] == NONE and hi == NONE and is_const(xs[2]) and is_const(lo) \
+                and isinstance(xs[2][1], int) and isinstance(lo[1], int) and xs[2][1] >= 0 and lo[1] >= 0:
+            return ("slice", xs[1], const(xs[2][1] + lo[1]), NONE)
         return ("slice", xs, const(0) if lo == NONE else lo, hi)
 
 
